@@ -90,6 +90,7 @@ func main() {
 	full := flag.Int("full-ms", 10000, "race timeout")
 	kinds := flag.String("kinds", "", "comma list of obligation kinds to keep (default all)")
 	onlySpec := flag.Bool("spec-only", false, "only functions that have a contract")
+	hookName := flag.String("hooks", "", "hook set (safety, rowrite)")
 	flag.Parse()
 	t0 := time.Now()
 	P, err := LoadProgram(*repo, []string{"/verif/specs"})
@@ -121,7 +122,10 @@ func main() {
 		if sp != nil && sp.Trusted {
 			continue
 		}
-		r := P.Verify(fn, sp, nil)
+		r := P.Verify(fn, sp, hooksByName(P, *hookName))
+		if rr := P.VerifyRefines(fn, sp, hooksByName(P, *hookName)); rr != nil {
+			results = append(results, rr)
+		}
 		if len(keep) > 0 {
 			var f []*Obl
 			for _, o := range r.Obls {
